@@ -146,6 +146,8 @@ public:
         // a prelude that grows a tree of some depth before the interesting part starts (half of the runs; always most of the C14 runs)
         int grow = r.chance(prop == "C14" ? 4 : 1, prop == "C14" ? 5 : 2) ? r.range(3, 30) : 0;
         for (int i = 0; i < grow; i++) { Json op = Json::obj(); op.set("k", "grow"); op.set("a", (long long)r.below(1000)); op.set("b", 0); op.set("c", 0); op.set("s", 0); op.set("t", (int)r.below(8)); op.set("n", (int)r.below(14)); op.set("m", (int)r.below(8)); op.set("f", false); ops.push(op); }
+        // a sixth of the C14 runs concentrate on the ID map: many attributes, ID declarations with few distinct values (so that chains of equal hashes form), removals and lookups
+        const bool idHeavy = prop == "C14" && r.chance(1, 6); if (idHeavy) plan.set("id_heavy", true);
         for (int i = 0; i < n; i++) {
             Json op = Json::obj(); unsigned k = (unsigned)r.below(100);
             static const char* kinds[] = { "createElement", "createElementNS", "createText", "createComment", "createCDATA", "createPI", "createFragment", "createAttribute",
@@ -161,6 +163,7 @@ public:
                 if (i < 4 && r.chance(1, 2)) { static const char* starters[] = { "itNew", "twNew", "liNew", "rgNew" }; kind = starters[r.below(4)]; }
                 else if (r.chance(11, 20)) { unsigned vt = 0; for (unsigned wv : vweight) vt += wv; unsigned pv = (unsigned)r.below(vt); size_t vi = 0; for (unsigned acc = 0; vi < 14; vi++) { acc += vweight[vi]; if (pv < acc) break; } kind = vkinds[vi]; }
                 op.set("chk", r.chance(1, 3));
+                if (idHeavy && r.chance(1, 2)) { static const char* ik[] = { "setAttribute", "setAttribute", "setAttribute", "idSet", "idSet", "idSet", "idGet", "idGet", "idGet", "removeAttribute", "cloneNode", "release", "appendChild" }; kind = ik[r.below(13)]; }
             }
             op.set("k", kind); op.set("a", (long long)r.below(1000)); op.set("b", (long long)r.below(1000)); op.set("c", (long long)r.below(1000)); op.set("s", (int)r.below(11)); op.set("t", (int)r.below(8)); op.set("n", (int)r.below(14)); op.set("m", (int)r.below(8)); op.set("f", r.coin());
             ops.push(op);
@@ -180,7 +183,7 @@ public:
         DomWorld w; static const XMLCh ls[] = { 'L', 'S', 0 }; DOMImplementation* impl = DOMImplementationRegistry::getDOMImplementation(ls);
         int ndocs = (int)plan.geti("docs", 1);
         for (int d = 0; d < ndocs; d++) { std::u16string rn = U(d ? "root2" : "root"); DOMDocument* xd = impl->createDocument(0, (const XMLCh*)rn.c_str(), 0); w.docs.push_back(xd); Node* rd = w.m.make(refdom::DOCUMENT, nullptr, u"#document"); w.add(rd, xd); Node* re = w.m.make(refdom::ELEMENT, rd, rn); re->parent = rd; rd->kids.push_back(re); w.add(re, xd->getDocumentElement()); }
-        int step = 0; size_t forbidden = 0, mutated = 0, viewOps = 0, viewOpsAfterMutation = 0; bool c14 = prop == "C14";
+        int step = 0; size_t forbidden = 0, mutated = 0, viewOps = 0, viewOpsAfterMutation = 0; bool c14 = prop == "C14"; if (plan.getb("id_heavy")) g_run.probe("id_heavy_runs");
         { Views vs(w); views = c14 ? &vs : nullptr;
         for (auto& op : plan.at("ops").a) {
             step++; g_run.tick(); std::string k = op.gets("k"); std::string err; bool handled = false;
